@@ -20,6 +20,33 @@ fimo-level: every hit reported by fimo() carries the exact tail probability of t
 
 Not asserted (the statement does not fix it): the value of `smallest` itself, the length of the
 table beyond the attainable range, which bins exist below the lowest attainable score.
+
+Extensions (audit round; every one uses the same oracle and the same clauses T1-T7):
+  * input classes of "every PWM" that the first version never built: all-zero columns, columns that
+    do not sum to 1 (sum 0.05-1.6, entries in [0, 1]), columns with exactly tied entries
+    ([a,a,b,b], [a,a,a,b]), columns whose small entries are of the order of the pseudocount
+    (1e-8..1e-3), probabilities rounded to 2-4 decimals (MEME files); eps log-uniform in
+    [1e-6, 0.1] incl. both end points (not only the six decades), bin sizes at full float
+    precision incl. exactly 0.01 and 1.0;
+  * the way the matrix is handed over: Fortran order, a column slice of a wider matrix (what fimo()
+    passes: motifs[:, s:e]), views with negative strides, every second row of an 8-row matrix, and
+    float32 log-odds (a dict of default-dtype torch tensors gives float32).  For float32 the
+    discretised score is defined on the float32 log-odds exactly as fimo() builds them; an entry
+    within a few float32 ulps of a rounding tie makes the case "not asserted";
+  * `_all_pwm_to_mapping` (the call fimo() actually makes; 1-10 motifs of width 1-16 concatenated,
+    motif_lengths uint64 cumsum, reverse-complement copies appended like fimo does): EVERY entry of
+    EVERY returned table against the oracle, not only the entries some hit happens to look up.
+    Skipped with a note if the function does not exist (it is not named by the property);
+  * fimo() p-value column with: threshold 1.0 (nearly every window is a hit, so the LOW end of the
+    table is looked up), the default threshold 1e-4 and 1e-3 with widths up to 20 and the
+    consensus / a one-mismatch neighbour / the anti-consensus of the motif and of its reverse
+    complement PLANTED (incl. offsets 0 and L-w), so that the TOP bins and the bins above the
+    highest attainable discretised score (real score / bin_size can exceed the sum of the rounded
+    letter scores; the statement demands p = 0 there) are looked up in every run;
+    reverse_complement=False, dim=1, 1-6 motifs, float32 motifs, numpy / float64 / int8 one-hot
+    sequences, the default bin_size / eps.
+  * an exception raised by the real call is a violation (TypingError for a dtype/layout, IndexError ...).
+  * a case with a rounding tie is counted as trivial (it asserts nothing).
 """
 import itertools
 import math
@@ -42,9 +69,20 @@ SCOPE = {
              '500 of width 1..7 checked against brute-force enumeration of all 4^w sequences AND the big-int counting '
              'recurrence, 300 of width 8..30 against the recurrence; bin sizes as above or uniform random in [0.01, 1]; '
              'every entry of every returned table compared; (c) p-value column of 150 fimo() runs (1-3 motifs of width '
-             '1..8, 1-3 random sequences of length 20-60 with N, threshold 0.5/0.1/0.01, both strands)',
+             '1..8, 1-3 random sequences of length 20-60 with N, threshold 0.5/0.1/0.01, both strands); '
+             '(d) 400 seeded random PWMs of width 1..12 from the EXTENDED column family (additionally all-zero columns, columns '
+             'with sum 0.05-1.6, exactly tied entries, entries 1e-8..1e-3 next to the pseudocount, probabilities rounded to 2-4 '
+             'decimals), eps log-uniform in [1e-6,0.1] incl. end points, bin uniform/log-uniform in [0.01,1] at full precision '
+             'incl. end points, handed over as C / Fortran / column-slice / negative-stride / strided-row float64 or C / '
+             'column-slice float32 log-odds; (e) 120 _all_pwm_to_mapping calls (1-10 motifs of width 1..16 incl. rc copies, '
+             'float64 or float32), every entry of every table; (f) p-value column of 150 further fimo() runs: 1-6 motifs of '
+             'width 1..20, threshold 1.0 / 0.5 / 0.01 / 1e-3 / 1e-4, consensus / one-mismatch / anti-consensus of motif and rc '
+             'planted at offsets incl. 0 and L-w, reverse_complement True/False, dim 0/1, float64/float32 motifs, torch '
+             'float32 / float64 / int8 and numpy one-hot input, default bin_size/eps in 40 % of the runs',
     'thorough': 'as quick with (a) widths 1-3 x all 48 pairs and width 4 x 6 pairs, (b) up to 6000 + 4000 random PWMs, '
-                '(c) up to 1500 fimo() runs with widths 1..12 (each part bounded by its share of the 10 min budget)',
+                '(c) up to 1500 fimo() runs with widths 1..12, (d) up to 4000 extended-family PWMs of width 1..30, (e) up to '
+                '1200 _all_pwm_to_mapping calls, (f) up to 1500 further fimo() runs with widths 1..30 (each part bounded by '
+                'its share of the 10 min budget)',
 }
 
 
@@ -56,16 +94,23 @@ def log_odds(pwm, eps):
     return numpy.log2(P + eps) - math.log2(0.25)
 
 
-def discretise(lp, bin_size):
+def log_odds32(pwm, eps):
+    """the float32 log-odds matrix exactly as fimo() builds it from float32 PWMs (same numpy expression)"""
+    P = numpy.array(pwm, dtype=numpy.float32)
+    return numpy.log2(P + eps) - math.log2(0.25)
+
+
+def discretise(lp, bin_size, rel_guard=0.0):
     """integer letter scores; second value: True if some entry sits on a rounding tie (then the
-    discretised score is not well defined and the case is not asserted)"""
+    discretised score is not well defined and the case is not asserted).  rel_guard widens the tie
+    zone relative to |q| (float32 log-odds: the quotient may be formed in either precision)."""
     n, w = lp.shape
     ints, tie = [], False
     for k in range(n):
         row = []
         for i in range(w):
             q = float(lp[k, i]) / bin_size
-            if abs(abs(q - math.floor(q)) - 0.5) < 1e-9:
+            if abs(abs(q - math.floor(q)) - 0.5) < 1e-9 + rel_guard * abs(q):
                 tie = True
             row.append(int(round(q)))
         ints.append(row)
@@ -130,9 +175,16 @@ class Tail:
         return self.numer(b) / self.total
 
 
-def exact_tail(pwm, eps, bin_size, brute=False):
-    lp = log_odds(pwm, eps)
-    ints, tie = discretise(lp, bin_size)
+F32_GUARD = 5e-7       # ~4 float32 ulps, relative to the quotient log-odds / bin_size
+
+
+def exact_tail(pwm, eps, bin_size, brute=False, f32=False):
+    if f32:
+        lp = log_odds32(pwm, eps)
+        ints, tie = discretise(lp, bin_size, F32_GUARD)
+    else:
+        lp = log_odds(pwm, eps)
+        ints, tie = discretise(lp, bin_size)
     counts = pmf_counts(ints)
     if brute:
         if pmf_enumerate(ints) != counts:
@@ -203,14 +255,80 @@ def compare_table(smallest, table, tail, max_msgs=4):
     return out
 
 
+LAYOUTS64 = ['C', 'F', 'slice', 'neg', 'rows']
+LAYOUTS32 = ['C', 'slice']
+
+
+def lay_out(lp, layout):
+    """the same 4 x w matrix (same dtype, same values) in another memory layout"""
+    n, w = lp.shape
+    if layout == 'C':
+        return numpy.ascontiguousarray(lp)
+    if layout == 'F':
+        return numpy.asfortranarray(lp)
+    if layout == 'slice':           # what fimo() passes: a column range of the concatenated motifs
+        big = numpy.empty((n, w + 5), dtype=lp.dtype)
+        big[:, 0::2] = 7.25
+        big[:, 1::2] = -11.5
+        big[:, 2:2 + w] = lp
+        return big[:, 2:2 + w]
+    if layout == 'neg':             # negative strides on both axes
+        return numpy.ascontiguousarray(lp[::-1, ::-1])[::-1, ::-1]
+    if layout == 'rows':            # every second row of a taller matrix
+        big = numpy.full((2 * n, w), 3.75, dtype=lp.dtype)
+        big[0::2] = lp
+        return big[0::2]
+    raise ValueError(layout)
+
+
+def _raised(e):
+    return '%s: %s' % (type(e).__name__, ' '.join(str(e).split())[:200])
+
+
 def check_table(case):
-    """case: {'kind': 'table', 'pwm': 4 x w nested list, 'eps', 'bin', 'brute': bool}"""
+    """case: {'kind': 'table', 'pwm': 4 x w nested list, 'eps', 'bin', 'brute': bool,
+    optional 'layout' (see lay_out, default 'C'), 'f32': bool (float32 log-odds)}"""
     pwm, eps, bin_size = case['pwm'], case['eps'], case['bin']
-    lp, ints, tie, tail = exact_tail(pwm, eps, bin_size, brute=case.get('brute', False))
+    f32 = bool(case.get('f32', False))
+    lp, ints, tie, tail = exact_tail(pwm, eps, bin_size, brute=case.get('brute', False), f32=f32)
+    case['_tie'] = tie
     if tie:
         return []
-    smallest, table = F._pwm_to_mapping(numpy.ascontiguousarray(lp), float(bin_size))
+    arr = lay_out(lp, case.get('layout', 'C'))
+    assert arr.dtype == lp.dtype and numpy.array_equal(arr, lp), 'oracle error: layout changed the matrix'
+    try:
+        smallest, table = F._pwm_to_mapping(arr, float(bin_size))
+    except Exception as e:
+        return ['_pwm_to_mapping raised %s' % _raised(e)]
     return compare_table(smallest, table, tail)
+
+
+def check_all_mapping(case):
+    """case: {'kind': 'all-map', 'pwms': [4 x w list, ...], 'eps', 'bin', 'f32': bool}: one call of
+    _all_pwm_to_mapping on the concatenated log-odds matrix, as fimo() makes it; every table judged"""
+    pwms, eps, bin_size, f32 = case['pwms'], case['eps'], case['bin'], bool(case.get('f32', False))
+    lps, tails = [], []
+    for pwm in pwms:
+        lp, ints, tie, tail = exact_tail(pwm, eps, bin_size, f32=f32)
+        lps.append(lp)
+        tails.append(None if tie else tail)
+    case['_n_asserted'] = sum(t is not None for t in tails)
+    cat = numpy.concatenate(lps, axis=-1)
+    lengths = numpy.cumsum([0] + [lp.shape[1] for lp in lps]).astype(numpy.uint64)
+    try:
+        smallests, tables = F._all_pwm_to_mapping(cat, lengths, float(bin_size))
+    except Exception as e:
+        return ['_all_pwm_to_mapping raised %s' % _raised(e)]
+    if len(smallests) != len(pwms) or len(tables) != len(pwms):
+        return ['_all_pwm_to_mapping returned %d offsets and %d tables for %d motifs' % (len(smallests), len(tables), len(pwms))]
+    out = []
+    for i, tail in enumerate(tails):
+        if tail is None:
+            continue
+        v = compare_table(smallests[i], tables[i], tail, max_msgs=1)
+        if v and len(out) < 3:
+            out.append('motif %d of %d (width %d): %s' % (i, len(pwms), tail.w, v[0]))
+    return out
 
 
 def _seq_from(rng, L, pN):
@@ -249,26 +367,55 @@ def score_bins(score, bin_size):
     return bins
 
 
+def _as_input(X, seq_type):
+    """the same one-hot batch in another container / dtype accepted by fimo()"""
+    if seq_type == 'torch64':
+        return X.double()
+    if seq_type == 'torchint8':
+        return X.to(torch.int8)
+    if seq_type == 'numpy32':
+        return X.numpy()
+    return X
+
+
 def check_fimo_pvalues(case):
-    """case: {'kind': 'fimo-p', 'pwms': [4 x w list ...], 'seqs': [...equal length], 'eps', 'bin', 'threshold'}
+    """case: {'kind': 'fimo-p', 'pwms': [4 x w list ...], 'seqs': [...equal length], 'eps', 'bin', 'threshold',
+    optional 'rc' (True), 'dim' (0), 'f32' (False: float64 motif tensors), 'seq_type' ('torch32' | 'torch64' |
+    'torchint8' | 'numpy32'), 'defaults' (False; True: bin_size and eps are NOT passed and must be 0.1 / 1e-4)}
     Only the p-value column of the hits that ARE reported is judged here (which windows are
     reported is C12)."""
     out = []
     pwms, seqs, eps, bin_size, thr = case['pwms'], case['seqs'], case['eps'], case['bin'], case['threshold']
-    motifs = {'m%d' % i: torch.tensor(p, dtype=torch.float64) for i, p in enumerate(pwms)}
-    X = one_hot(seqs)
-    hits = F.fimo(motifs, X, bin_size=bin_size, eps=eps, threshold=thr, reverse_complement=True)
+    rc, dim, f32 = bool(case.get('rc', True)), int(case.get('dim', 0)), bool(case.get('f32', False))
+    motifs = {'m%d' % i: torch.tensor(p, dtype=torch.float32 if f32 else torch.float64) for i, p in enumerate(pwms)}
+    X = _as_input(one_hot(seqs), case.get('seq_type', 'torch32'))
+    kw = {}
+    if case.get('defaults', False):
+        assert bin_size == 0.1 and eps == 0.0001, 'oracle error: defaults case must carry the default bin_size / eps'
+    else:
+        kw = {'bin_size': bin_size, 'eps': eps}
+    if dim != 0:
+        kw['dim'] = dim
+    case['_n_checked'] = 0
+    try:
+        hits = F.fimo(motifs, X, threshold=thr, reverse_complement=rc, **kw)
+    except Exception as e:
+        return ['fimo() call (narrowest motif: width %d, %d motifs) raised %s' % (min(len(p[0]) for p in pwms), len(pwms), _raised(e))]
     n_checked = 0
-    for mi, df in enumerate(hits):
-        P = numpy.array(pwms[mi], dtype=numpy.float64)
-        orac = {}
+    orac = {}
+    for mi, pwm in enumerate(pwms):
+        P = numpy.array(pwm, dtype=numpy.float32 if f32 else numpy.float64)
         for strand, Q in (('+', P), ('-', P[::-1, ::-1])):
-            lp, ints, tie, tail = exact_tail(Q.tolist(), eps, bin_size)
-            orac[strand] = (lp, tie, tail)
-        w = P.shape[1]
+            lp, ints, tie, tail = exact_tail(Q.tolist(), eps, bin_size, f32=f32)
+            orac[(mi, strand)] = (lp, tie, tail)
+    for fi, df in enumerate(hits):
         for r in df.itertuples(index=False):
             r = dict(zip(df.columns, r))
-            lp, tie, tail = orac[r['strand']]
+            mi = fi if dim == 0 else int(r['motif_idx'])     # dim=1: one frame per sequence, all motifs
+            if not 0 <= mi < len(pwms) or r['strand'] not in ('+', '-'):
+                continue
+            w = len(pwms[mi][0])
+            lp, tie, tail = orac[(mi, r['strand'])]
             if tie:
                 continue
             si, st = int(r['sequence_name']), int(r['start'])
@@ -337,6 +484,123 @@ def random_pwm(rng, w):
     return [[cols[i][k] for i in range(w)] for k in range(4)]
 
 
+def random_column2(rng, flavour):
+    """the extended column family (audit round); falls back to random_column"""
+    if flavour == 'allzero':
+        return [0.0] * 4
+    if flavour == 'unnorm':             # entries in [0, 1], column sum 0.05 .. 1.6
+        g = [rng.random() for _ in range(4)]
+        if rng.random() < 0.3:
+            g[rng.randrange(4)] = 0.0
+        t = rng.choice([0.05, 0.3, 0.9, 0.99, 1.01, 1.2, 1.6]) / max(sum(g), 1e-9)
+        return [min(1.0, x * t) for x in g]
+    if flavour == 'tied':               # exactly equal entries
+        if rng.random() < 0.5:
+            a = rng.uniform(0.01, 0.49)
+            c = [a, a, 0.5 - a, 0.5 - a]
+        else:
+            a = rng.uniform(0.01, 0.33)
+            c = [a, a, a, 1 - 3 * a]
+        rng.shuffle(c)
+        return c
+    if flavour == 'tiny':               # small entries of the order of the pseudocount
+        c = [10 ** rng.uniform(-8, -3) for _ in range(3)]
+        c.append(1.0 - sum(c))
+        rng.shuffle(c)
+        return c
+    if flavour == 'rounded':            # probabilities as printed in a MEME file
+        d = rng.choice([2, 3, 4])
+        return [round(x, d) for x in _dirichlet(rng, rng.choice([0.3, 1.0, 3.0]))]
+    return random_column(rng, flavour)
+
+
+FLAVOURS2 = ['allzero', 'unnorm', 'tied', 'tiny', 'rounded', 'uniform', 'onehot', 'zeros', 'sharp', 'flat', 'dir']
+
+
+def random_pwm2(rng, w):
+    """4 x w nested list from the extended column family (columns need not sum to 1)"""
+    style = rng.choice(['mixed', 'mixed', 'mixed', 'new', 'new', 'one-odd', 'old'])
+    if style == 'old':
+        return random_pwm(rng, w)
+    if style == 'mixed':
+        cols = [random_column2(rng, rng.choice(FLAVOURS2)) for _ in range(w)]
+    elif style == 'new':
+        f = rng.choice(FLAVOURS2[:5])
+        cols = [random_column2(rng, f) for _ in range(w)]
+    else:                               # an ordinary motif with one odd column at a random place (incl. first / last)
+        cols = [random_column(rng, 'dir') for _ in range(w)]
+        cols[rng.choice([0, w - 1, rng.randrange(w)])] = random_column2(rng, rng.choice(FLAVOURS2[:5]))
+    return [[cols[i][k] for i in range(w)] for k in range(4)]
+
+
+def random_eps2(rng):
+    u = rng.random()
+    if u < 0.15:
+        return rng.choice([1e-6, 0.1])                  # the end points of the stated range
+    if u < 0.4:
+        return rng.choice(EPSS)
+    return 10 ** rng.uniform(-6, -1)
+
+
+def random_bin2(rng, small_ok=True):
+    u = rng.random()
+    if u < 0.15:
+        b = rng.choice([0.01, 1.0])                     # the end points of the stated range
+    elif u < 0.4:
+        b = rng.choice(BIN_SIZES)
+    elif u < 0.7:
+        b = rng.uniform(0.01, 1.0)
+    else:
+        b = 10 ** rng.uniform(-2, 0)
+    if not small_ok and b < 0.05:
+        b = rng.choice([0.05, 0.1, 0.25])
+    return b
+
+
+COMPL = {'A': 'T', 'C': 'G', 'G': 'C', 'T': 'A', 'N': 'N'}
+
+
+def _plant(rng, seqs, pwm, strand, what):
+    """overwrite a window of one sequence with the consensus / a one-mismatch neighbour / the anti-consensus
+    of the motif (strand '-': of its reverse complement), at offset 0, L - w or a random one"""
+    w = len(pwm[0])
+    pick = max if what != 'anti' else min
+    word = [ALPHA[pick(range(4), key=lambda k: pwm[k][j])] for j in range(w)]
+    if what == 'mismatch':
+        word[rng.randrange(w)] = rng.choice(ALPHA)
+    word = ''.join(word)
+    if strand == '-':
+        word = ''.join(COMPL[c] for c in reversed(word))
+    si = rng.randrange(len(seqs))
+    L = len(seqs[si])
+    off = rng.choice([0, L - w, rng.randint(0, L - w)])
+    seqs[si] = seqs[si][:off] + word + seqs[si][off + w:]
+
+
+def random_fimo_case2(rng, wmax):
+    nm = rng.choice([1, 1, 2, 3, 4, 6])
+    pwms = []
+    for _ in range(nm):
+        w = rng.randint(1, wmax) if rng.random() < 0.8 else rng.randint(1, 3)
+        pwms.append(random_pwm2(rng, w) if rng.random() < 0.5 else random_pwm(rng, w))
+    maxw = max(len(p[0]) for p in pwms)
+    L = rng.randint(maxw, maxw + 40)
+    seqs = [_seq_from(rng, L, 0.03) for _ in range(rng.randint(1, 3))]
+    rc = rng.random() < 0.7
+    for pwm in pwms:
+        for strand in ('+', '-') if rc else ('+',):
+            if rng.random() < 0.8:
+                _plant(rng, seqs, pwm, strand, rng.choice(['consensus', 'consensus', 'mismatch', 'anti']))
+    defaults = rng.random() < 0.4
+    case = {'kind': 'fimo-p', 'pwms': pwms, 'seqs': seqs,
+            'eps': 0.0001 if defaults else random_eps2(rng),
+            'bin': 0.1 if defaults else random_bin2(rng, small_ok=maxw <= 8),
+            'threshold': rng.choice([1.0, 1.0, 0.5, 0.01, 1e-3, 1e-4, 1e-4]),
+            'rc': rc, 'dim': 1 if rng.random() < 0.25 else 0, 'f32': rng.random() < 0.3,
+            'seq_type': rng.choice(['torch32', 'torch32', 'torch64', 'torchint8', 'numpy32']), 'defaults': defaults}
+    return case
+
+
 LIB = [
     [0.25, 0.25, 0.25, 0.25],
     [1.0, 0.0, 0.0, 0.0], [0.0, 1.0, 0.0, 0.0], [0.0, 0.0, 1.0, 0.0], [0.0, 0.0, 0.0, 1.0],
@@ -352,15 +616,39 @@ def finding_for(w):
     return 'width-1-table-uninitialised' if w == 1 else 'table-not-exact-tail-width-ge-2'
 
 
-def _run_table(rep, pwm, eps, bin_size, brute, section, key):
+def _run_table(rep, pwm, eps, bin_size, brute, section, key, layout=None, f32=False):
     w = len(pwm[0])
     case = {'kind': 'table', 'pwm': pwm, 'eps': eps, 'bin': bin_size, 'brute': brute}
+    if layout is not None:
+        case['layout'] = layout
+    if f32:
+        case['f32'] = True
     viol = check_table(case)
-    rep.case(key, nontrivial=True, section=section,
+    tie = case.pop('_tie', False)
+    rep.case(key, nontrivial=not tie, section=section,
              sample={'w': w, 'eps': eps, 'bin': bin_size, 'pwm_col0': [pwm[k][0] for k in range(4)]})
     if viol:
         head = '_pwm_to_mapping table is not the exact tail distribution (width %s)' % ('1' if w == 1 else '>= 2')
+        if layout is not None or f32:
+            head += ' [%s %s]' % ('float32' if f32 else 'float64', layout or 'C')
         rep.violation('%s | w=%d bin=%s eps=%s: %s' % (head.ljust(80), w, bin_size, eps, ' ;; '.join(viol[:3])), case, finding=finding_for(w))
+    return viol
+
+
+def _run_fimo(rep, case, key, section):
+    viol = check_fimo_pvalues(case)
+    n = case.pop('_n_checked', 0)
+    rep.case(key, nontrivial=n > 0, section=section,
+             sample={'widths': [len(p[0]) for p in case['pwms']], 'hits_checked': n, 'threshold': case['threshold']})
+    for w1 in (True, False):
+        vs = [v for v in viol if (' width 1,' in v) == w1]
+        if vs:
+            head = 'fimo() hit p-value is not the exact tail probability of its score bin (width %s)' % ('1' if w1 else '>= 2')
+            opts = ''
+            if len(case) > 6:
+                opts = ' [rc=%s dim=%s %s %s thr=%s%s]' % (case.get('rc', True), case.get('dim', 0), 'float32' if case.get('f32') else 'float64',
+                                                            case.get('seq_type', 'torch32'), case['threshold'], ' defaults' if case.get('defaults') else '')
+            rep.violation('%s | %s%s' % (head.ljust(80), ' ;; '.join(vs[:2]), opts), case, finding=finding_for(1 if w1 else 2))
     return viol
 
 
@@ -373,6 +661,7 @@ def run(rep):
     import time
     thorough = rep.tier == 'thorough'
     budget = rep.budget_s
+    torch.set_num_threads(1)
     try:
         r = F.logaddexp2(-math.inf, -math.inf)
         if r != -math.inf:
@@ -384,7 +673,7 @@ def run(rep):
     all_pairs = [(b, e) for b in BIN_SIZES for e in EPSS]
     few_pairs = [(b, e) for b in (0.1, 0.5, 1.0) for e in (1e-4, 0.1)]
     plan = [(1, all_pairs), (2, all_pairs), (3, all_pairs if thorough else few_pairs)] + ([(4, few_pairs)] if thorough else [])
-    t_end = time.time() + budget * 0.30
+    t_end = time.time() + budget * 0.25
     for w, pairs in plan:
         done = True
         for cols in itertools.product(range(len(LIB)), repeat=w):
@@ -400,10 +689,69 @@ def run(rep):
             rep.note('library part (width %d) cut by its time share' % w)
             break
 
+    # (d) extended column family, eps / bin at full precision, memory layouts, float32 ---------
+    rng = _sub_rng(rep, 'variants')
+    n_var = 4000 if thorough else 400
+    wmax_var = 30 if thorough else 12
+    t_end = time.time() + budget * 0.12
+    for k in range(n_var):
+        if time.time() > t_end or rep.out_of_time():
+            rep.note('extended-family part stopped after %d cases' % k)
+            break
+        w = 1 + k % wmax_var
+        pwm = random_pwm2(rng, w)
+        e = random_eps2(rng)
+        b = random_bin2(rng, small_ok=thorough or w <= 8 or k % 5 == 0)
+        f32 = rng.random() < 0.3
+        layout = rng.choice(LAYOUTS32 if f32 else LAYOUTS64)
+        _run_table(rep, pwm, e, b, w <= 6, 'extended-family-layouts-float32', ('var', k), layout=layout, f32=f32)
+
+    # (e) _all_pwm_to_mapping: the call fimo() makes, every entry of every table ----------------
+    if not hasattr(F, '_all_pwm_to_mapping'):
+        rep.note('fimo._all_pwm_to_mapping does not exist in this tree: part (e) skipped')
+    else:
+        rng = _sub_rng(rep, 'allmap')
+        n_all = 1200 if thorough else 120
+        t_end = time.time() + budget * 0.08
+        for k in range(n_all):
+            if time.time() > t_end or rep.out_of_time():
+                rep.note('_all_pwm_to_mapping part stopped after %d cases' % k)
+                break
+            nm = rng.choice([1, 2, 3, 5, 10])
+            pwms = []
+            for _ in range(nm):
+                w = rng.choice([1, 1, 2, 3]) if rng.random() < 0.3 else rng.randint(1, 16)
+                pwms.append(random_pwm2(rng, w))
+            if rng.random() < 0.5:                      # fimo() appends the reverse complements
+                pwms = pwms + [[row[::-1] for row in p[::-1]] for p in pwms]
+            maxw = max(len(p[0]) for p in pwms)
+            case = {'kind': 'all-map', 'pwms': pwms, 'eps': random_eps2(rng), 'bin': random_bin2(rng, small_ok=maxw <= 8),
+                    'f32': k % 4 == 3}
+            viol = check_all_mapping(case)
+            n = case.pop('_n_asserted', 0)
+            rep.case(('am', k), nontrivial=n > 0, section='all-pwm-to-mapping',
+                     sample={'widths': [len(p[0]) for p in pwms], 'bin': case['bin'], 'eps': case['eps'], 'f32': case['f32']})
+            if viol:
+                head = '_all_pwm_to_mapping table is not the exact tail distribution'
+                rep.violation('%s | %d motifs bin=%s eps=%s %s: %s' % (head.ljust(80), len(pwms), case['bin'], case['eps'],
+                              'float32' if case['f32'] else 'float64', ' ;; '.join(viol[:2])), case,
+                              finding=finding_for(min(len(p[0]) for p in pwms)))
+
+    # (f) fimo() p-value column: both ends of the table, options and dtypes never passed in (c) ---
+    rng = _sub_rng(rep, 'fimo2')
+    n_f2 = 1500 if thorough else 150
+    t_end = time.time() + budget * 0.15
+    for k in range(n_f2):
+        if time.time() > t_end or rep.out_of_time():
+            rep.note('fimo p-value part (f) stopped after %d cases' % k)
+            break
+        case = random_fimo_case2(rng, 30 if thorough else 20)
+        _run_fimo(rep, case, ('fp2', k), 'fimo-p-value-planted-options')
+
     # (b) random PWMs ------------------------------------------------------------------------
     rng = _sub_rng(rep, 'small')
     n_small = 6000 if thorough else 500
-    t_end = time.time() + budget * 0.22
+    t_end = time.time() + budget * 0.15
     for k in range(n_small):
         if time.time() > t_end or rep.out_of_time():
             rep.note('random small-width part stopped after %d cases' % k)
@@ -415,7 +763,7 @@ def run(rep):
         _run_table(rep, pwm, e, b, True, 'random-w<=7-enumerated', ('rs', k))
     rng = _sub_rng(rep, 'large')
     n_large = 4000 if thorough else 300
-    t_end = time.time() + budget * 0.25
+    t_end = time.time() + budget * 0.17
     for k in range(n_large):
         if time.time() > t_end or rep.out_of_time():
             rep.note('random large-width part stopped after %d cases' % k)
@@ -442,23 +790,17 @@ def run(rep):
         seqs = [_seq_from(rng, L, 0.03) for _ in range(rng.randint(1, 3))]
         case = {'kind': 'fimo-p', 'pwms': pwms, 'seqs': seqs, 'eps': rng.choice(EPSS), 'bin': rng.choice([0.05, 0.1, 0.25, 0.5, 1.0]),
                 'threshold': rng.choice([0.5, 0.1, 0.01])}
-        viol = check_fimo_pvalues(case)
-        n = case.pop('_n_checked', 0)
-        rep.case(('fp', k), nontrivial=n > 0, section='fimo-p-value-column',
-                 sample={'widths': [len(p[0]) for p in pwms], 'hits_checked': n, 'threshold': case['threshold']})
-        for w1 in (True, False):
-            vs = [v for v in viol if (' width 1,' in v) == w1]
-            if vs:
-                head = 'fimo() hit p-value is not the exact tail probability of its score bin (width %s)' % ('1' if w1 else '>= 2')
-                rep.violation('%s | %s' % (head.ljust(80), ' ;; '.join(vs[:2])), case, finding=finding_for(1 if w1 else 2))
+        _run_fimo(rep, case, ('fp', k), 'fimo-p-value-column')
 
 
 def replay(case):
     k = case.get('kind')
     if k == 'table':
-        return check_table(case)
+        return check_table(dict(case))
     if k == 'fimo-p':
         c = dict(case)
         out = check_fimo_pvalues(c)
         return out
+    if k == 'all-map':
+        return check_all_mapping(dict(case))
     return ['unknown replay kind']
